@@ -24,7 +24,8 @@ SHRINK_BUDGET = 700
 C10_KINDS = ['odict', 'tvar', 'tagged', 'list', 'set', 'vtuple', 'tuple', 'dict', 'tlist', 'tset', 'tseq', 'tvtuple', 'ttuple', 'tdict', 'tmap',
              'opt', 'union', 'lit', 'ann', 'tl', 'dl', 'cls', 'enum', 'gen', 'vol', 'range', 'frozenset']
 C10_SCALARS = ['int', 'float', 'str', 'bool', 'none', 'Fraction', 'Decimal', 'date', 'datetime', 'time',
-               'PurePath', 'Pattern', 'bytes', 'complex', 'any', 'int', 'str', 'float', 'any', 'any']
+               'PurePath', 'Pattern', 'bytes', 'complex', 'any', 'int', 'str', 'float', 'any', 'any',
+               'IdInt', 'IdFloat', 'IdDecimal', 'IdFraction']
 
 HANDLER_SPECS = [None, None, None, ['one', 'dbl_int'], ['one', 'upper_str'], ['seq', 'dbl_int', 'upper_str'],
                  ['seq', 'upper_str', 'dbl_int'], ['seq', 'defer_ni', 'dbl_int'], ['seq', 'defer_nie', 'neg_float'],
@@ -583,6 +584,12 @@ def gen_plan(seed: int, cls: str) -> dict:
     if ro.random() < 0.2:
         pos = ro.randrange(len(ops) + 1)
         ops[pos:pos] = _equal_looking_conditions_scenario(ro, sym)
+    if ro.random() < 0.2:
+        pos = ro.randrange(len(ops) + 1)
+        ops[pos:pos] = _same_name_scenario(ro, sym)
+    if ro.random() < 0.15:
+        extra, nroot = _same_name_enums_scenario(ro, sym, roots, nroot)
+        ops.extend(extra)
     if ro.random() < 0.3 and ndict < 5:
         extra = _handler_identity_scenario(ro, sym, ndict, knobs)
         ndict += 2
@@ -737,6 +744,53 @@ def _equal_looking_conditions_scenario(ro, sym):
             t_, d_ = (ast, d) if wrap is None else ([wrap, ast], [d])
             out.append({'op': 'inline', 't': t_, 'data': tg.enc(d_), 'custom': None, 'pristine': k > 0})
     return out
+
+
+def _same_name_scenario(ro, sym):
+    """
+    Different types that share their module and qualified name (user subclasses of int / float / Decimal / Fraction made
+    by one factory) used one after another, bare and inside containers: nothing remembered under a *name* or a *repr*
+    may carry over from one to the next.
+    """
+    cases = [('IdInt', 12), ('IdInt', 2.5), ('IdFloat', 2.5), ('IdFloat', 'x'), ('IdDecimal', '1.50'), ('IdDecimal', '12'),
+             ('IdFraction', '1/3'), ('IdInt', '12'), ('IdFraction', 5)]
+    ro.shuffle(cases)
+    out = []
+    first = cases[0][0]
+    for k, (name, d) in enumerate(cases[:ro.choice([3, 4, 5])]):
+        wrap = ro.choice([None, None, 'list', 'opt'])
+        ast = ['s', name] if wrap is None else [wrap, ['s', name]]
+        data = d if wrap != 'list' else [d]
+        out.append({'op': 'inline', 't': ast, 'data': tg.enc(data), 'custom': ro.choice([None, None, ['one', 'defer_ni']]),
+                    'pristine': name != first})
+    return out
+
+
+def _same_name_enums_scenario(ro, sym, roots, nroot):
+    """Two different enums that carry the same Python name (and module), defined and used one after the other."""
+    if 'E90' in sym.enum_specs:
+        return [], nroot
+    pyname = ro.choice(['Mode', 'Kind'])
+    variants = [[['A', 1], ['B', 2]], [['X', 'x'], ['Y', 'y']], [['A', 2], ['B', 1]], [['A', 1], ['X', 'x']]]
+    m0, m1 = ro.sample(variants, 2)
+    out = []
+    names = []
+    for (en, members) in (('E90', m0), ('E91', m1)):
+        spec = {'name': en, 'members': members, 'pyname': pyname}
+        sym.enums[en] = True
+        sym.enum_specs[en] = spec
+        out.append({'op': 'defenum', 'spec': spec})
+        rname = f'r{nroot}'
+        nroot += 1
+        roots[rname] = ro.choice([['enum', en], ['list', ['enum', en]]])
+        out.append({'op': 'build', 'name': rname, 't': roots[rname]})
+        names.append((rname, members))
+    for k in range(ro.choice([3, 4, 6])):
+        (rname, members) = names[k % 2] if ro.random() < 0.8 else ro.choice(names)
+        v = tg.dec(ro.choice(m0 + m1)[1])
+        data = v if roots[rname][0] == 'enum' else [v, tg.dec(ro.choice(members)[1])]
+        out.append({'op': 'convert', 'root': rname, 'data': tg.enc(data), 'custom': None, 'pristine': True})
+    return out, nroot
 
 
 def _error_content_scenario(ro, sym):
